@@ -13,3 +13,15 @@ Fixpoint mismatches_from (n : N) (cases : list (list decl * string)) : list N :=
   end.
 
 Definition mismatches := mismatches_from 0%N.
+
+(** The premise of the order-independence theorem, evaluated on the declaration lists the real
+    generators hand to WriteDeclarations: equal IDs carry equal content. *)
+Fixpoint inconsistent_from (n : N) (cases : list (list decl * string)) : list N :=
+  match cases with
+  | [] => []
+  | (l, _) :: r =>
+      if consistentb l then inconsistent_from (N.succ n) r
+      else n :: inconsistent_from (N.succ n) r
+  end.
+
+Definition inconsistent_lists := inconsistent_from 0%N.
